@@ -353,6 +353,24 @@ Definition build_checked (stem_validate stem_check : bool) (strop eqkey : str ->
   if stem_validate && negb (stem_valid stem) then None                      (* Namespace.__init__ -> _checked_namespace_file_stem *)
   else if stem_check && stem_collides strop es ext stem outdir (fst b) types then None else Some b.
 
+(* ---- support files ---------------------------------------------------------------------------------------------------------
+   SupportGenerator.__init__: _sub_folders = Path("") / Path(part) for part in target_language.support_namespace
+   (= configured string .split("."));  generate_all: target_path = Path(support_output_folder) / _sub_folders, one file
+   target_path / <resource name> per support resource.  Joining an absolute part REPLACES what came before.
+   sn_valid = what design_notes/C11_support_namespace_fix.patch (_checked_support_namespace) accepts: "" or identifiers. *)
+Definition is_alpha_us (c : chr) : bool := ((65 <=? c) && (c <=? 90)) || ((97 <=? c) && (c <=? 122)) || (c =? 95).
+Definition is_alnum_us (c : chr) : bool := is_alpha_us c || ((48 <=? c) && (c <=? 57)).
+Definition ident_comp (c : str) : bool :=
+  match c with [] => false | x :: _ => is_alpha_us x && forallb is_alnum_us c end.
+Definition sn_valid (sn : str) : bool := str_eqb sn [] || forallb ident_comp (split_on 46 sn).
+Definition join_part (cur : path) (part : str) : path :=
+  if stem_abs part then [[47]] ++ stem_parts part else cur ++ stem_parts part.
+Definition support_dir (outdir : path) (sn : str) : path := fold_left join_part (split_on 46 sn) outdir.
+(* None = Language.support_namespace raises ValueError (when the code validates: sn_validate, regenerated fact
+   pin_c11support_ns_validated); sfiles = the file names of the support resources *)
+Definition support_targets (sn_validate : bool) (outdir : path) (sn : str) (sfiles : list str) : option (list path) :=
+  if sn_validate && negb (sn_valid sn) then None else Some (map (fun f => support_dir outdir sn ++ [f]) sfiles).
+
 (* ---- the files a generation run writes --------------------------------------------------------------------------------
    DSDLCodeGenerator.generate_all (jinja/__init__.py): provider = namespace.get_all_types if generate_namespace_types else
    namespace.get_all_datatypes; one file is written per yielded (type, output path), at that path.  `c11_targets` is that
